@@ -40,7 +40,7 @@ Definition site_permitted (Le Li : list Z) (span : N) (n : Z) : bool :=
   end.
 Definition expected_sites (form : path_form) (c : site_case) : option (list Z) :=
   let '(as_passed, rel, exc, inc, sites, span, _) := c in
-  match ff_files_to_analyze defaults [[46; 112; 121]%N] [rel] exc inc with
+  match ff_files_to_analyze ff_exclude_sentinel defaults [[46; 112; 121]%N] [rel] exc inc with
   | [] => Some []
   | _ => match process_file_lines form as_passed (Some rel) exc, process_file_lines form as_passed (Some rel) inc with
          | Some Le, Some Li => Some (List.filter (site_permitted Le Li span) sites)
